@@ -280,7 +280,7 @@ def job_too_big(jc):
 def jobs(tier):
     js = []
     metric_sets = [(1024, 1200), (1000, 1000), (2048, 2400), (1024, 1024)]
-    hs = [16, 64, 127, 128, 136, 255] if tier == "quick" else list(range(8, 256, 1))
+    hs = [16, 64, 106, 127, 128, 136, 255] if tier == "quick" else list(range(8, 256, 1))
     for upem, F in metric_sets:
         for h in hs:
             for mode in ("square", "proportional", "fixed"):
@@ -301,7 +301,7 @@ def main(tier):
         jobs(tier),
         tier=tier,
         explanation="Bounded symbolic execution of nanoemoji's bitmap metrics code (ppem, bearings, nudge, advance, size limits) with symbolic ascender, PNG width and configured width; PNG.size is a stub; image bytes are asserted by object identity.",
-        bounds={"(upem, em height)": "(1024,1200),(1000,1000),(2048,2400),(1024,1024)", "bitmap height = bitmap_resolution": "quick: 16,64,127,128,136,255 (+256,300 for rejection); thorough: every 8..255",
+        bounds={"(upem, em height)": "(1024,1200),(1000,1000),(2048,2400),(1024,1024)", "bitmap height = bitmap_resolution": "quick: 16,64,106,127,128,136,255 (+256,300 for rejection); thorough: every 8..255",
                 "ascender": "symbolic 0..em height (descender = ascender - em height)", "PNG width": "symbolic 1..255 (square: = height)", "configured width": "symbolic 0..4096"},
         outside=["PNG bytes / Pillow decoding", "fontTools strike compilation", "bitmap height != bitmap_resolution", "symbolic upem/em height (nonlinear)"],
         assumptions=["PNG height equals config.bitmap_resolution (what the resvg step produces)", "edge tolerance = 1px (2 nudged) + |h - em height in px|/2, the mismatch inherent to ppem rounding"],
